@@ -192,4 +192,11 @@ def classify(line, impl, spec, model):
         axis = int(t[4][2:]); d = len(_shape_of(line))
         # the defect the model predicts: a negative (valid) axis is compared un-normalised, the view returns its input
         if -d <= axis < 0 and equal(impl, model): return "accumulate-negative-axis"
+    if t[0] == "vnorm" and t[3] == "N" and t[1][2:] in ("def", "rt0", "ct0"):
+        # axis=None without keepdims: the root is computed in float (power_t casts the 0-dim sum view to float)
+        x, y = _split(impl), _split(spec)
+        if x and y and x[0] == y[0] and len(x[1]) == len(y[1]) == 1:
+            try: fu, fv = float(x[1][0]), float(y[1][0])
+            except ValueError: return None
+            if abs(fu - fv) <= 2e-7 * max(abs(fu), abs(fv)) + 1e-12: return "vector_norm-none-axis-single-precision"
     return None
